@@ -22,6 +22,7 @@ type ReplayModel struct {
 	Expect []string            `json:"expect,omitempty"`
 	Obs    []string            `json:"obs,omitempty"`
 	Sched  []int               `json:"sched,omitempty"`
+	Sync   []SyncEvent         `json:"sync,omitempty"` // acquire-type operations issued from module code, in scheduler order (explore mode)
 	Gate   []string            `json:"gate,omitempty"` // order in which gated goroutines entered their next critical section
 	ByteRanks map[string]uint64 `json:"byte_ranks,omitempty"` // symbolic order of opaque byte strings (public keys), by term key
 }
@@ -94,6 +95,7 @@ func (in *Interp) BuildReplay(m smt.Model) *ReplayModel {
 	}
 	r.Sched = append(r.Sched, in.schedTrace...)
 	r.Gate = append(r.Gate, in.gateOrder...)
+	r.Sync = append(r.Sync, in.syncTrace...)
 	return r
 }
 
